@@ -83,7 +83,7 @@ def evaluate(a):
 
 def main():
     global SCR
-    cr = CheckRun("C08", "exploration", default_budget=(420, 3000))
+    cr = CheckRun("C08", "exploration", default_budget=(900, 6000))
     with build.Scratch("C08") as sd:
         SCR = sd
         bits = (0, 2) if cr.quick else (0, 1, 2, 4)
@@ -151,6 +151,8 @@ def main():
                     cr.sample({"checksum_bits": job[0], "files": ["+".join(f) for f in job[1]], "cfg": job[2], "image_sha256": r["sha"][:16]})
         # in-flight fragment blocks: block processor under every schedule with a 0-bit checksum
         bp = []
+        if cr.time_left() <= 30:
+            cr.cap("deadline before the schedule scenarios")
         if cr.time_left() > 30:
             bexe = sched.build_bp_explorer(sd, xxh_bits=0)
             scen = ["+r20,+s20,+r20", "+r20,+s20,+t20,+s20", "a1,b1,a1", "a1+r5,b1+s5,a1+r5"] + ([] if cr.quick else
